@@ -445,6 +445,22 @@ def r01_6(ctx):
         ctx.undecided(R, 'cursor-width', 'no DFS frame field used as a transition index was recognised')
 
 
+def r01_7(ctx):
+    """the map / set level streams (Stream, Keys, Values, the operation wrappers, StreamOutput / StreamZeroOutput) are views of one inner
+    stream: each `next` asks the inner stream exactly once and hands on what it got - an adapter that loops can skip items"""
+    R = ctx.rule('R01.7', 'map / set level stream adapters forward every item of the stream they wrap (one inner next() per call, no loop)', floor=8)
+    lib = ctx.lib
+    for f in lib.fn_list:
+        if not (f.impl and 'Streamer' in (f.impl.get('trait_path') or '') and f.path.endswith('::next') and f.kind != 'Closure'):
+            continue
+        if not f.path.startswith(('<inner_map::', '<inner_set::')):
+            continue
+        inner = [t for _, t in f.calls() if (f.callee(t) or f.callee_decl(t) or '').endswith('::next')]
+        ok = not f.loops() and len(inner) == 1
+        ctx.check(R, ok, 'adapter:' + f.path, '%s %s: items of the wrapped stream can be skipped or repeated (an adapter must ask the inner stream once and hand on what it got)' % (
+            f.path, 'loops over the inner stream' if f.loops() else 'calls the inner next() %d times' % len(inner)), fn=f)
+
+
 def run(ctx):
     lib = ctx.lib
     A = Anchors(lib)
@@ -479,3 +495,6 @@ def run(ctx):
     import rules.C03 as C03
     ctx.step(C03.r03_7, ctx)
     ctx.step(r01_6, ctx)
+    ctx.step(r01_7, ctx)
+    # the tables of common input bytes decide how single-transition nodes spell their byte (R09.1, shared with C09 / C10)
+    ctx.step(formatrules.constants, ctx)
